@@ -180,17 +180,13 @@ def completion(prog, rep):
     rep.ob(rule, "finish_delta | writes", ok, "finish_delta clears `current` and records `previous_tick`: %s" % fields, fd.loc())
     # can_receive: current.tick <= tick, previous < tick
     cr = prog.one(R + "can_receive")
-    closures = [prog.bodies.get(b) for b in prog.bodies if b.startswith(R + "can_receive::{closure")]
-    ops = []
-    for cb in closures:
-        cir = IR(cb)
-        for bi in sorted(cb.live):
-            for si, st in enumerate(cb.blocks[bi]["st"]):
-                if st["k"] == "assign" and st["r"]["k"] == "bin" and st["r"]["op"] in ("Le", "Lt", "Ge", "Gt"):
-                    ops.append((st["r"]["op"], show(cir.rvalue(st["r"], (bi, si)))))
-    got = sorted(o for o, _ in ops)
-    rep.ob(rule, "can_receive | comparisons", got == ["Le", "Lt"],
-           "ticks older than the one in progress (<=) or not newer than the last completed (<) are refused: %s" % [x for _, x in ops], cr.loc())
+    sem = can_receive_cases(prog)
+    cur = [c for k, c, pri in sem if k == "current"]
+    prev = [c for k, c, pri in sem if k == "previous"]
+    okc = cur == ["Le"] and prev == ["Lt"]
+    rep.ob(rule, "can_receive | comparisons", okc,
+           "accepted iff current.tick <= tick while a transfer is in progress, else iff previous_tick < tick" if okc else
+           "can_receive compares: in-progress tick %s tick, last completed tick %s tick (expected <= and <)" % (cur, prev), cr.loc())
 
 
 def wire_delta_tick(prog, rep, fn):
@@ -274,19 +270,79 @@ def _const_of(e):
     return None
 
 
-def can_receive_priority(prog, rep):
-    """R1b: while a transfer is in progress its tick decides whether a message is old; the last completed tick is consulted
-    only when nothing is in progress (`current.map(..).or(previous_tick.map(..))`, not the other way round)"""
-    rule = "R1b-can-receive-priority"
+def _stored_op_param(e, is_param):
+    """normalise a comparison to `stored OP tick-parameter`; returns OP or None"""
+    neg = False
+    while e[0] == "un" and e[1] == "Not":
+        e, neg = e[2], not neg
+    if e[0] != "bin" or e[1] not in ("Le", "Lt", "Ge", "Gt"):
+        return None
+    op = e[1]
+    pa, pb = is_param(e[2]), is_param(e[3])
+    if pa == pb:
+        return None
+    if pa:
+        op = {"Le": "Ge", "Lt": "Gt", "Ge": "Le", "Gt": "Lt"}[op]
+    if neg:
+        op = {"Le": "Gt", "Lt": "Ge", "Ge": "Lt", "Gt": "Le"}[op]
+    return op
+
+
+def can_receive_cases(prog):
+    """[(which stored tick, normalised comparison `stored OP tick`, consulted only when nothing is in progress?)] for
+    DeltaReceiver::can_receive, read from either form: Option combinators with closures, or a match / if-let"""
+    from ..bits import BitEval, Unsupported
     b = prog.one(R + "can_receive")
     ir = IR(b)
+    out = []
     ors = [(bi, t) for bi, t in b.calls() if (t.get("callee") or "") == "std::option::Option::or"]
-    if len(ors) != 1:
-        raise AnchorLost("DeltaReceiver::can_receive is no longer `a.or(b).unwrap_or(..)` (%d calls of Option::or): re-read it" % len(ors))
-    e = ir.call_expr(ors[0][0], ors[0][1])
-    first, second = show(strip_sites(e[2][0])), show(strip_sites(e[2][1]))
-    ok = "self.current" in first and "self.previous_tick" not in first and "self.previous_tick" in second and "self.current" not in second
+    if len(ors) == 1:
+        e = ir.call_expr(ors[0][0], ors[0][1])
+        be = BitEval(prog)
+        for pos, a in enumerate(e[2]):
+            txt = show(strip_sites(a))
+            which = "current" if "self.current" in txt else "previous" if "self.previous_tick" in txt else "?"
+            cl = [x for x in walk(a) if isinstance(x, tuple) and x and x[0] == "agg" and x[1] == "closure"]
+            op = None
+            if cl:
+                try:
+                    ce, rb = be.ret_expr(cl[0][2])
+                    op = _stored_op_param(ce, lambda x: any(isinstance(y, tuple) and y and y[0] == "arg" and y[1] == 0 for y in walk(x)))
+                except Unsupported:
+                    op = None
+            # priority: `current` must be the receiver of `or`, `previous` its argument
+            out.append((which, op, pos == (0 if which == "current" else 1)))
+        return out
+    # match / if-let form: the blocks that produce the result
+    for bi in sorted(b.live):
+        for si, st in enumerate(b.blocks[bi]["st"]):
+            if st["k"] == "assign" and st["p"]["l"] == 0 and not st["p"].get("pr"):
+                v = ir.rvalue(st["r"], (bi, si))
+                txt = show(strip_sites(v))
+                conds = [(show(strip_sites(c)), rel, val) for c, rel, val, edge, dty in ir.edge_conditions(bi)]
+                if v[0] == "c":
+                    continue
+                which = "current" if "current" in txt else "previous" if "previous_tick" in txt else "?"
+                op = _stored_op_param(v, lambda x: x[0] == "arg" and x[1] == 1)
+                if which == "previous":
+                    # consulted only when current is None
+                    pri = any("current" in c and "discr" in c and ((rel == "==" and val == 0) or (rel == "notin" and 1 in val)) for c, rel, val in conds)
+                else:
+                    pri = not any("previous_tick" in c for c, rel, val in conds)
+                out.append((which, op, pri))
+    if not out:
+        raise AnchorLost("DeltaReceiver::can_receive: neither the Option-combinator nor the match form was recognised")
+    return out
+
+
+def can_receive_priority(prog, rep):
+    """R1b: while a transfer is in progress its tick decides whether a message is old; the last completed tick is consulted
+    only when nothing is in progress"""
+    rule = "R1b-can-receive-priority"
+    b = prog.one(R + "can_receive")
+    sem = can_receive_cases(prog)
+    ok = bool(sem) and all(pri for k, c, pri in sem) and sorted(k for k, c, pri in sem) == ["current", "previous"]
     rep.ob(rule, "in-progress transfer first", ok,
-           "can_receive = current.map(c.tick <= tick).or(previous_tick.map(t < tick))" if ok else
-           "can_receive consults `%s` before `%s`: a stray part newer than the last completed tick but older than the transfer in progress is accepted and wipes it"
-           % (first[:60], second[:60]), b.loc())
+           "the in-progress transfer's tick is consulted first, the last completed tick only when nothing is in progress" if ok else
+           "can_receive consults the last completed tick before (or regardless of) the transfer in progress: a stray part newer than the last completed "
+           "tick but older than the transfer in progress is accepted and wipes it (%s)" % sem, b.loc())
